@@ -42,7 +42,7 @@ def same_basis(basis, snap):
 
 def snap_obj(x):
     if isinstance(x, np.ndarray):
-        return ("nd", x.shape, str(x.dtype), x.tobytes())
+        return ("nd", x.shape, str(x.dtype), x.tobytes(), bool(x.flags.writeable))
     if isinstance(x, (list, tuple)):
         return (type(x).__name__, tuple(snap_obj(e) for e in x))
     if isinstance(x, dict):
@@ -188,6 +188,10 @@ def history(run, length, seed_tag):
             # parameter update followed by renormalisation
             s = rng.choice(sh.basis)
             kind = rng.choice(["exps", "exps", "coeffs", "coord", "exps-in-place", "coeffs-in-place", "norm_cont-by-hand"])
+            if kind in ("exps-in-place", "coeffs-in-place") and not (s.exps.flags.writeable and s.coeffs.flags.writeable):
+                run.violation("an array held by a shell has become read-only during the history: a valid in-place parameter update is refused",
+                              {"case": "history", "trace": list(trace), "signature": {"kind": "purity-readonly"}})
+                return False
             if kind == "exps-in-place":
                 s.exps *= np.array([core.snap(rng.uniform(0.6, 1.6), 6) for _ in range(s.exps.size)])       # edit inside the array held
             elif kind == "coeffs-in-place":
@@ -485,9 +489,68 @@ def edited_arguments(run, n=2):
     return ok
 
 
+def freed_memory_case(run, n=3):
+    """a result must not depend on what freed memory happens to contain: right before each call, blocks of the sizes that the work
+    arrays of the library have (for this number of functions K and points N) are filled with NaN / inf / -1 and released; the result
+    must be finite and bitwise equal to that of the first call"""
+    from gbasis.evals import density as Dn
+    from gbasis.evals import stress_tensor as ST
+    from gbasis.evals.electrostatic_potential import electrostatic_potential
+    rng = run.rng
+    ok = True
+    for k in range(n):
+        specs = [rand_shell(rng, [0, 1, 0][(i + k) % 3], [], nprim=1 + i % 2, nseg=1, exp_hi=5.0) for i in range(1 + k % 2)]
+        basis = make_basis(specs)
+        K = sum(s_.size for s_ in specs)
+        N = 1 + k % 3
+        pts = np.array([[core.snap(rng.uniform(-1, 1), 8) for _ in range(3)] for _ in range(N)])
+        g = random_symmetric(rng, K, psd=True)
+        nuc = np.array([[0.4, -0.3, 0.2]])
+        funcs = {
+            "evaluate_density_hessian": lambda: Dn.evaluate_density_hessian(g, basis, pts),
+            "evaluate_density_gradient": lambda: Dn.evaluate_density_gradient(g, basis, pts),
+            "evaluate_density_laplacian": lambda: Dn.evaluate_density_laplacian(g, basis, pts),
+            "evaluate_deriv_density(2,1,0)": lambda: Dn.evaluate_deriv_density(np.array([2, 1, 0]), g, basis, pts),
+            "evaluate_posdef_kinetic_energy_density": lambda: Dn.evaluate_posdef_kinetic_energy_density(g, basis, pts),
+            "evaluate_stress_tensor": lambda: ST.evaluate_stress_tensor(g, basis, pts, alpha=0.5, beta=1.0),
+            "evaluate_ehrenfest_force": lambda: ST.evaluate_ehrenfest_force(g, basis, pts, alpha=0.5, beta=1.0),
+            "evaluate_ehrenfest_hessian": lambda: ST.evaluate_ehrenfest_hessian(g, basis, pts, alpha=0.5, beta=1.0),
+            "electrostatic_potential": lambda: electrostatic_potential(basis, g, pts, nuc, np.array([1.0])),
+            "overlap_integral": lambda: pf.FUNCS["overlap"][0](basis, None),
+            "kinetic_energy_integral": lambda: pf.FUNCS["kinetic"][0](basis, None),
+            "moment_integral": lambda: pf.FUNCS["moment"][0](basis, pf.Env(origin=np.zeros(3), orders=np.array([[1, 0, 0], [0, 2, 0]]))),
+            "point_charge_integral": lambda: pf.FUNCS["point_charge"][0](basis, pf.Env(charge_pos=nuc, charges=np.array([1.0]))),
+        }
+        shapes = [(3, 3, K, N), (K, N), (N,), (3, N), (3, 3, N), (N, 3, 3), (K, K), (K, K, N), (3, K, N), (N, 3), (K, K, 3), (9 * K * N,), (3 * K * N,)]
+
+        def poison():
+            junk = []
+            for sh in shapes:
+                for val in (np.nan, np.inf, -np.inf):
+                    junk.append(np.full(sh, val))
+                junk.append(np.full(sh, -1, dtype=np.int64))
+            del junk
+        for name, f in funcs.items():
+            run.case(("freed-memory", name, K, N))
+            run.count("calls after blocks of NaN / inf were released")
+            ref = f()
+            for rep in range(4):
+                poison()
+                r = f()
+                if not np.all(np.isfinite(r)) or not np.array_equal(r, ref):
+                    run.violation(f"{name}: the result of a repeated identical call changed after blocks of non-finite numbers had been "
+                                  f"allocated and released ({'non-finite entries' if not np.all(np.isfinite(r)) else 'different values'}): the "
+                                  "result depends on the contents of uninitialised memory",
+                                  {"case": "freed-memory", "function": name, "K": K, "N": N, "signature": {"kind": "purity-uninitialised-memory"}})
+                    ok = False
+                    break
+    return ok
+
+
 def check(run):
     quick = run.tier == "quick"
     edited_arguments(run, 2 if quick else 8)
+    freed_memory_case(run, 3 if quick else 12)
     lengths = [1, 2, 3, 5, 8, 13, 21, 30] if quick else [1, 2, 3, 4, 5, 6, 8, 10, 13, 16, 21, 25, 30] * 4
     for k, n in enumerate(lengths):
         history(run, n, k)
@@ -501,6 +564,9 @@ def check(run):
 
 def replay(run, rep):
     n0 = len(run.violations)
+    if rep.get("case") == "freed-memory":
+        freed_memory_case(run, 8)
+        return len(run.violations) == n0
     if rep.get("case") == "edited-argument":
         edited_arguments(run, 6)
         return len(run.violations) == n0
